@@ -10,4 +10,5 @@ CONSTANTS
 VIEW View
 INVARIANT Inv
 PROPERTY StepProps
+PROPERTY GoalEmit
 CHECK_DEADLOCK FALSE
